@@ -3,7 +3,7 @@
 # usage: tools/mut.sh core.py 'OLD' 'NEW' qual...
 F="$1"; OLD="$2"; NEW="$3"; shift 3
 D=/dev/shm/mut.$$
-mkdir -p $D && cp -r /repo/cincoconfig $D/ || exit 3
+mkdir -p $D && cp -r ${MUT_SRC:-/repo}/cincoconfig $D/ || exit 3
 python3 - "$D/cincoconfig/$F" "$OLD" "$NEW" <<'PY'
 import sys
 p,old,new=sys.argv[1:4]
